@@ -128,6 +128,15 @@ CHECKS = {
         note="Trusted: TLC, monotonic time stamps taken at the afero.Fs boundary, a harness-run control heartbeat as the reference that separates library lateness from host overload "
              "(overloaded windows are discarded and counted, never reported), 60 ms slack on detection of a dead holder.",
         technique="TLA+ timed spec + TLC exhaustive; gate-forced death points; TLC trace validation of real-time recordings"),
+    "C18": dict(
+        category="model_checking", design_ref="DESIGN.md 5/C18",
+        text="OutputStream.tla models a child writing tokens (text pieces, newlines) on two streams, the operating system delivering them in arbitrary chunks, the adapter turning chunks into "
+             "log messages, and Execute's start / end messages and result; TLC checks LinesComplete, StartFirst, OneEndLast, NilIffZero, CtxKindIfCancelled exhaustively (the per-chunk adapter "
+             "must violate LinesComplete) and emits every scenario up to 5 tokens. The harness binary re-executed as the child performs exactly the scripted write(2) calls and ends as "
+             "scripted; a recording logger collects the messages; OutputStreamTrace.tla judges messages, result and Output() against the line algebra shared with the model; seeded scripts "
+             "add volume (1 MB), long lines and arbitrary write boundaries.",
+        note="Trusted: TLC, os/exec, the kernel's pipe semantics (writes 30 ms apart arrive in separate reads).",
+        technique="TLA+ stream/chunk/adapter specification + TLC exhaustive check and scenario emission; replay with real child processes; TLC trace judgement"),
     "C19": dict(
         category="model_checking", design_ref="DESIGN.md 5/C19",
         text="TLC checks exhaustively (<=4 pages x <=2 items, <=12 calls, static and stream) that the cursor algorithm as coded "
